@@ -164,3 +164,53 @@ pub fn probe_m9() {
     reach!("m9");
     std::mem::forget(g); std::mem::forget(m);
 }
+/// @harness id=probe_q1 props=PROBE unwind=30 mem=8 cap=600
+/// one concrete position query on the generated chain world
+#[cfg_attr(kani, kani::proof)]
+#[cfg_attr(kani, kani::stub(std::path::Path::exists, crate::stubs::path_exists_false))]
+#[cfg_attr(kani, kani::stub(crate::fixtures::FixtureDatabase::is_fixture_imported_in_file, crate::world::stub_is_imported))]
+#[cfg_attr(kani, kani::stub(core::unicode::unicode_data::alphabetic::lookup, crate::stubs::uni_alphabetic))]
+#[cfg_attr(kani, kani::stub(core::unicode::unicode_data::n::lookup, crate::stubs::uni_numeric))]
+#[cfg_attr(kani, kani::stub(core::slice::memchr::memchr, crate::stubs::memchr_bytewise))]
+pub fn probe_q1() {
+    let mut w = World::new(&[C0, C1, U]);
+    w.def(C0, "f", 6); let i = w.def(C1, "f", 4); w.defs[i].deps = vec!["f"];
+    w.with_text = true;
+    let db = build(&w, WITH_USAGES);
+    let got = db.find_fixture_definition(Path::new(path(C1)), 3, 6);
+    assert!(got.as_ref().map(|d| d.line) == Some(6));
+    reach!("q1"); std::mem::forget(got); std::mem::forget(db); std::mem::forget(w);
+}
+/// @harness id=probe_q0 props=PROBE unwind=30 mem=8 cap=600
+/// build only
+#[cfg_attr(kani, kani::proof)]
+pub fn probe_q0() {
+    let mut w = World::new(&[C0, C1, U]);
+    w.def(C0, "f", 6); let i = w.def(C1, "f", 4); w.defs[i].deps = vec!["f"];
+    w.with_text = true;
+    let db = build(&w, WITH_USAGES);
+    reach!("q0"); std::mem::forget(db); std::mem::forget(w);
+}
+
+pub fn stub_not_stdlib(_db: &FixtureDatabase, _m: &str) -> bool { false }
+/// @harness id=probe_imp props=PROBE unwind=24 mem=12 cap=1500
+/// REAL import walk: S and M define f, C1 `from .m import *`
+#[cfg_attr(kani, kani::proof)]
+#[cfg_attr(kani, kani::stub(std::path::Path::exists, crate::stubs::path_exists_false))]
+#[cfg_attr(kani, kani::stub(std::path::Path::is_dir, crate::stubs::path_is_dir_false))]
+#[cfg_attr(kani, kani::stub(std::path::Path::canonicalize, crate::stubs::canonicalize_err))]
+#[cfg_attr(kani, kani::stub(std::hash::RandomState::new, crate::stubs::fixed_random_state))]
+#[cfg_attr(kani, kani::stub(rustpython_parser::parse, crate::oracle::oracle_parse))]
+#[cfg_attr(kani, kani::stub(std::arch::x86_64::__cpuid_count, crate::stubs::cpuid_none))]
+#[cfg_attr(kani, kani::stub(core::slice::memchr::memchr, crate::stubs::memchr_bytewise))]
+#[cfg_attr(kani, kani::stub(crate::fixtures::FixtureDatabase::is_standard_library_module, stub_not_stdlib))]
+pub fn probe_imp() {
+    let mut w = World::new(&[S, M, C1, U]);
+    w.def(S, "f", 4); w.def(M, "f", 6);
+    w.imp_c1 = Imp { on: true, kind: 0 };
+    w.with_text = true;
+    let db = build(&w, FULL);
+    let got = db.find_closest_definition(Path::new(path(U)), "f");
+    assert!(got.is_some());
+    reach!("imp"); std::mem::forget(got); std::mem::forget(db); std::mem::forget(w);
+}
